@@ -153,8 +153,11 @@ def chunkLoop {σ : Type} (I : InputOps σ) (elemSize chunkLen : Nat) :
     | (.panic, s1) => (.panic, s1)
 
 /-- `read_vec_from_u8s` (`src/codec.rs`): overflow check, early rejection when the input knows its
-    remaining length, then the chunked reads. `elemSize ≥ 1` on every call site (primitive types). -/
+    remaining length, then the chunked reads. `elemSize ≥ 1` on every call site (primitive types).
+    `const { assert!(MAX_PREALLOCATION >= size_of::<T>()) }` in `decode_vec_chunked` is a
+    compile-time failure; the model makes it an explicit `panic` outcome. -/
 def runBulk {σ : Type} (I : InputOps σ) (elemSize count : Nat) (s : σ) : Res Bytes × σ :=
+  if elemSize > maxPrealloc then (.panic, s) else
   let byteLen := count * elemSize
   if byteLen > usizeMax then (.err, s) else
   let chunkLen := if elemSize = 0 then usizeMax else maxPrealloc / elemSize
